@@ -222,9 +222,11 @@ fn hook(k: &mut K, n: usize, a: &[usize; 6]) -> Option<usize> {
 }
 
 /// builds the command from a symbolic configuration, records the expectation, runs spawn()
-fn run_spawn(faults: u8, side: u8, minimal: bool) -> (tiny_std::Result<tiny_std::process::Child>, u32) {
+fn run_spawn(faults: u8, side: u8, level: u8) -> (tiny_std::Result<tiny_std::process::Child>, u32) {
     let k = ks();
     k.fork_force = side;
+    let minimal = level == 0;
+    let medium = level == 1;
     match faults {
         0 => k.model_no_faults(),
         _ => k.model_with_one_fault(),
@@ -232,7 +234,7 @@ fn run_spawn(faults: u8, side: u8, minimal: bool) -> (tiny_std::Result<tiny_std:
     k.hook = Some(hook);
     k.max_calls = 22;
     // a descriptor the caller hands over as the child's stdout
-    let use_raw: bool = if minimal { false } else { kani::any() };
+    let use_raw: bool = if minimal || medium { false } else { kani::any() };
     let mut owned_before = 0u32;
     if use_raw {
         let fd = k.alloc_fd();
@@ -244,7 +246,7 @@ fn run_spawn(faults: u8, side: u8, minimal: bool) -> (tiny_std::Result<tiny_std:
     let mut cmd = Command::new(us(&BIN)).unwrap();
     e.argv[0] = BIN.as_ptr() as usize;
     let nargs: usize = if minimal { 0 } else { kani::any() };
-    kani::assume(nargs <= 2);
+    kani::assume(nargs <= 2 && (!medium || nargs <= 1));
     e.nargs = nargs;
     if nargs >= 1 {
         cmd.arg(us(&A1));
@@ -255,7 +257,7 @@ fn run_spawn(faults: u8, side: u8, minimal: bool) -> (tiny_std::Result<tiny_std:
         e.argv[2] = A2.as_ptr() as usize;
     }
     let nenv: usize = if minimal { 0 } else { kani::any() };
-    kani::assume(nenv <= 2);
+    kani::assume(nenv <= 2 && (!medium || nenv <= 1));
     e.nenv = nenv;
     if nenv >= 1 {
         let v = UnixString::try_from_bytes(b"A=1").unwrap();
@@ -276,12 +278,12 @@ fn run_spawn(faults: u8, side: u8, minimal: bool) -> (tiny_std::Result<tiny_std:
         cmd.uid(u);
         e.uid = Some(u);
     }
-    if !minimal && kani::any() {
+    if !minimal && !medium && kani::any() {
         let g: u32 = kani::any();
         cmd.gid(g);
         e.gid = Some(g);
     }
-    if !minimal && kani::any() {
+    if !minimal && !medium && kani::any() {
         let pg: i32 = kani::any();
         kani::assume(pg >= 0);
         cmd.pgroup(pg);
@@ -299,11 +301,23 @@ fn run_spawn(faults: u8, side: u8, minimal: bool) -> (tiny_std::Result<tiny_std:
     (r, owned_before)
 }
 
-// @ob C13 quick spawn_child_side fns=Command::new,Command::arg,Command::env,Command::cwd,Command::uid,Command::gid,Command::pgroup,Command::stdin,Command::stdout,Command::spawn,do_spawn,setup_io,Stdio::to_child_stdio,rusl::process::fork,rusl::process::execve,rusl::unistd::dup3 bound="the path that continues as the forked child: 0..=2 args, 0..=2 env entries, cwd/uid/gid/pgroup each configured or not, stdin inherit|pipe, stdout inherit|descriptor; one failing call at any index; execve fails (any errno) or succeeds" timeout=2400 mem=40
+// @ob C13 quick spawn_child_side fns=Command::new,Command::arg,Command::env,Command::cwd,Command::uid,Command::gid,Command::pgroup,Command::stdin,Command::stdout,Command::spawn,do_spawn,setup_io,Stdio::to_child_stdio,rusl::process::fork,rusl::process::execve,rusl::unistd::dup3 bound="the path that continues as the forked child: 0..=1 args, 0..=1 env entries, cwd/uid configured or not, stdin inherit|pipe (thorough variant: 0..=2 args/env, gid, pgroup, stdout descriptor); one failing call at any index; execve fails (any errno) or succeeds" timeout=2400 mem=40
 #[kani::proof]
 #[kani::unwind(24)]
 fn spawn_child_side() {
-    let (_r, _) = run_spawn(1, 1, false);
+    let (_r, _) = run_spawn(1, 1, 1);
+    let k = ks();
+    let e = exp();
+    kani::cover!(!k.forked, "a call before fork failed: nothing was forked");
+    // (1) control returns from spawn() only in the caller: reaching this line after a fork means the child returned
+    assert!(!k.forked, "spawn() returned in the forked child: the child keeps running the caller's code");
+    let _ = e;
+}
+// @ob C13 thorough spawn_child_side_full fns=Command::new,Command::arg,Command::env,Command::cwd,Command::uid,Command::gid,Command::pgroup,Command::stdin,Command::stdout,Command::spawn,do_spawn,setup_io,Stdio::to_child_stdio,rusl::process::fork,rusl::process::execve,rusl::unistd::dup3 bound="the path that continues as the forked child: 0..=2 args, 0..=2 env entries, cwd/uid/gid/pgroup each configured or not, stdin inherit|pipe, stdout inherit|descriptor; one failing call at any index; execve fails (any errno) or succeeds" timeout=3400 mem=40
+#[kani::proof]
+#[kani::unwind(24)]
+fn spawn_child_side_full() {
+    let (_r, _) = run_spawn(1, 1, 2);
     let k = ks();
     let e = exp();
     kani::cover!(!k.forked, "a call before fork failed: nothing was forked");
@@ -316,7 +330,34 @@ fn spawn_child_side() {
 #[kani::proof]
 #[kani::unwind(24)]
 fn spawn_parent_side() {
-    let (r, _) = run_spawn(1, 2, false);
+    let (r, _) = run_spawn(1, 2, 1);
+    let k = ks();
+    let e = exp();
+    assert!(!k.in_child);
+    kani::cover!(r.is_ok(), "parent: Ok(child)");
+    kani::cover!(e.parent_read_errno != 0 && k.n_failed == 0, "parent: child reported an errno");
+    kani::cover!(k.forked && k.n_failed == 1, "a call failed after the fork (parent side)");
+    match r {
+        Ok(c) => {
+            assert!(k.forked, "Ok only after a successful fork");
+            assert!(e.parent_read_eof, "Ok only once the CLOEXEC pipe reported EOF (exec happened)");
+            assert!(c.get_pid() == 4242, "the child handle carries the pid fork returned");
+            core::mem::forget(c);
+        }
+        Err(er) => {
+            if e.parent_read_errno != 0 && k.n_failed == 0 {
+                assert!(er.matches_errno(rusl::error::Errno::new(e.parent_read_errno as i32)),
+                        "the error carries the errno the child reported (positive)");
+                assert!(k.waited >= 1, "the failed child was waited for");
+            }
+        }
+    }
+}
+// @ob C13 thorough spawn_parent_side_full fns=Command::spawn,do_spawn,Process::wait bound="the path that continues as the parent: same configurations; one failing call at any index; pipe read: EOF | 8-byte report (any errno) | short | error" timeout=3400 mem=40
+#[kani::proof]
+#[kani::unwind(24)]
+fn spawn_parent_side_full() {
+    let (r, _) = run_spawn(1, 2, 2);
     let k = ks();
     let e = exp();
     assert!(!k.in_child);
@@ -344,7 +385,29 @@ fn spawn_parent_side() {
 #[kani::proof]
 #[kani::unwind(24)]
 fn spawn_parent_descriptors() {
-    let (r, handed_over) = run_spawn(1, 2, false);
+    let (r, handed_over) = run_spawn(1, 2, 1);
+    let k = ks();
+    let mut owned = 0u32;
+    if let Ok(c) = r {
+        if let Some(p) = &c.stdin {
+            owned |= 1 << p.borrow_fd_raw();
+        }
+        core::mem::forget(c);
+    }
+    kani::cover!(k.forked && owned != 0, "parent keeps its end of the stdin pipe");
+    kani::cover!(!k.forked && k.n_failed == 1, "fork or an earlier call failed");
+    assert!(k.bad_close == 0, "no descriptor is closed twice");
+    // the descriptor handed over as Stdio::RawFd may or may not have been consumed (closed) by the operation, depending on
+    // how far it got: it is left out of the comparison
+    assert!(k.fd_open & !(k.fd_initial | owned) == 0, "nothing spawn opened stays open in the parent (leak)");
+    assert!(k.fd_open | handed_over == k.fd_initial | owned | handed_over,
+            "descriptor table changed only by the descriptors handed to the caller");
+}
+// @ob C12 thorough spawn_parent_descriptors_full fns=Command::spawn,do_spawn,setup_io bound="as spawn_parent_side: descriptor table after spawn() returns in the parent" timeout=3400 mem=40
+#[kani::proof]
+#[kani::unwind(24)]
+fn spawn_parent_descriptors_full() {
+    let (r, handed_over) = run_spawn(1, 2, 2);
     let k = ks();
     let mut owned = 0u32;
     if let Ok(c) = r {
@@ -373,25 +436,47 @@ impl BorrowRaw for tiny_std::process::AnonPipe {
     }
 }
 
-// @ob C13 quick child_wait fns=Child::wait,Child::try_wait,Process::wait,Process::try_wait,rusl::process::wait_pid bound="status delivered by the kernel: any i32; wait4 fails or not" timeout=900
+// @ob C13 quick child_wait fns=Child::wait,Child::try_wait,Process::wait,Process::try_wait,rusl::process::wait_pid bound="any sequence of up to 3 calls from {try_wait, wait}; a WNOHANG poll may find the child still running; exit status delivered by the kernel: any i32; wait4 may fail once" timeout=1500
 #[kani::proof]
 #[kani::unwind(24)]
 fn child_wait() {
-    let (r, _) = run_spawn(0, 2, true);
+    let (r, _) = run_spawn(0, 2, 0);
     let k = ks();
     let Ok(mut c) = r else { return };
     k.begin_operation();
-    k.fail_mask = if kani::any() { 1 } else { 0 };
-    let w = c.wait();
-    kani::cover!(w.is_ok(), "wait delivered a status");
-    kani::cover!(w.is_err(), "wait4 failed");
-    if let Ok(st) = w {
-        // the status is the one wait4 wrote; a second wait returns the cached value without another call
-        let calls = k.count_nr(nr::WAIT4);
-        let again = c.wait();
-        assert!(again.is_ok() && again.unwrap() == st, "wait reports the same exit status again");
-        assert!(k.count_nr(nr::WAIT4) == calls, "no second wait4 for a reaped child");
-        assert!(c.try_wait().unwrap() == Some(st));
+    let at: u32 = kani::any();
+    kani::assume(at <= 3);
+    k.fail_mask = if at == 3 { 0 } else { 1 << at };
+    let mut reported: Option<i32> = None;
+    let mut i = 0;
+    while i < 3 {
+        let use_try: bool = kani::any();
+        if use_try {
+            match c.try_wait() {
+                Ok(Some(st)) => {
+                    assert!(k.reaped == 1, "an exit status is reported only after the kernel reaped the child");
+                    assert!(st == k.reap_status, "try_wait reports the status the kernel delivered");
+                    assert!(reported.is_none() || reported == Some(st), "the same status every time");
+                    reported = Some(st);
+                }
+                Ok(None) => assert!(k.reaped == 0, "None only while the child has not been reaped"),
+                Err(_) => {}
+            }
+        } else {
+            match c.wait() {
+                Ok(st) => {
+                    assert!(k.reaped == 1, "wait returns a status only once the kernel reaped the child (it must not return a cached value that no wait4 produced)");
+                    assert!(st == k.reap_status, "wait reports the status the kernel delivered");
+                    assert!(reported.is_none() || reported == Some(st), "the same status every time");
+                    reported = Some(st);
+                }
+                Err(_) => {}
+            }
+        }
+        i += 1;
     }
+    kani::cover!(reported.is_some() && k.waited >= 2, "a poll found the child running, a later call reaped it");
+    kani::cover!(k.n_failed == 1, "a wait4 call failed");
+    assert!(k.reaped <= 1);
     core::mem::forget(c);
 }
